@@ -13,7 +13,7 @@ def main():
     chk.assume('min/max element operations are only exercised on non-empty vectors (not defined on empty ones)', 'sqrt modelled as s >= 0, s*s = x')
     e2prop.run_e2(chk, e2prop.e2_harness_path('c04_e2.cpp'), 'c04_e2', timeout=60, harness_args=['--bounds', n])
     # sparse vector slice
-    chk.bounds.append('E2 sparse vector slice: SparseVector of size 1..%s built by every insertion sequence of length <= %s (repeated indices included): element access, used_elements, min/max(-abs) elements against the flattened definition (unset entries are zero)' % (('3', '2') if quick else ('4', '3')))
+    chk.bounds.append('E2 sparse vector slice: SparseVector (and SparseVectorBlocked<2> for sizes <= 2) of size 1..%s built by every insertion sequence of length <= %s (repeated indices included): element access, used_elements, min/max(-abs) elements against the flattened definition (unset entries are zero)' % (('3', '2') if quick else ('4', '3')))
     chk.functions += ['LAFEM::SparseVector<SymReal,Index>::{operator()(Index), operator()(Index,DT), sort, used_elements, max_element, min_element, max_abs_element, min_abs_element}']
     e2prop.run_e2(chk, e2prop.e2_harness_path('c04s_e2.cpp'), 'c04s_e2', timeout=60 if quick else 300, harness_args=['--bounds', '1' if quick else '2'])
     return chk.finish(
